@@ -50,6 +50,9 @@ let parse_cmd (s : string) : cmd =
   | ["mx"; _] -> CNoop
   | ["xsd"; p; f; b] -> ASetDataNode (relpath p, b01 f, bspec b)
   | ["xcl"; src; dst; f; b] -> AClone (abspath src, relpath dst, b01 f, bspec b)
+  | ["xsr"; src; dst; f] -> ARestore (abspath src, relpath dst, b01 f)
+  | ["xra"; p; i] -> ARemoveEntryAt (relpath p, nat_of_int (int_of_string i))
+  | ["dt"] -> CDetach
   | _ -> failwith ("bad cmd " ^ s)
 
 let opc n = String.make 1 (Char.chr (int_of_n n))
